@@ -2125,6 +2125,15 @@ class ModRef:
     def __init__(self, mod):
         self.mod = mod
 
+    def __repr__(self):
+        return f"<module {getattr(self.mod, 'name', self.mod)}>"
+
+    def __eq__(self, o):
+        return isinstance(o, ModRef) and getattr(self.mod, "name", self.mod) == getattr(o.mod, "name", o.mod)
+
+    def __hash__(self):
+        return hash(("ModRef", getattr(self.mod, "name", None)))
+
 
 class FuncRef:
     __slots__ = ("func", "selfv", "selfcls")
